@@ -293,6 +293,25 @@ struct EvalOut {
 }
 
 fn eval_tape(prop: &PropDef, tier: Tier, scalar: bool, run: u64, seed: u64, tape: Option<&[u32]>, trace: bool) -> EvalOut {
+    eval_tape_logged(prop, tier, scalar, run, seed, tape, trace, None)
+}
+
+/// Re-generate a run that killed its worker, logging every tape value unbuffered; returns the tape prefix
+/// up to the point of death.
+fn recover_tape_of_dead_run(prop: &PropDef, tier: Tier, scalar: bool, run: u64, seed: u64) -> Option<Vec<u32>> {
+    let dir = verif_dir().join("target").join("tmp");
+    let _ = std::fs::create_dir_all(&dir);
+    let log = dir.join(format!("wfsim-tapelog-{}-{}.txt", std::process::id(), rng_counter()));
+    let _ = std::fs::remove_file(&log);
+    let r = eval_tape_logged(prop, tier, scalar, run, seed, None, false, Some(&log));
+    let text = std::fs::read_to_string(&log).ok();
+    let _ = std::fs::remove_file(&log);
+    r.died.as_ref()?;
+    Some(text?.lines().filter_map(|l| l.trim().parse().ok()).collect())
+}
+
+#[allow(clippy::too_many_arguments)]
+fn eval_tape_logged(prop: &PropDef, tier: Tier, scalar: bool, run: u64, seed: u64, tape: Option<&[u32]>, trace: bool, tape_log: Option<&std::path::Path>) -> EvalOut {
     let dir = verif_dir().join("target").join("tmp");
     let _ = std::fs::create_dir_all(&dir);
     let path = dir.join(format!("wfsim-eval-{}-{}.json", std::process::id(), rng_counter()));
@@ -310,6 +329,14 @@ fn eval_tape(prop: &PropDef, tier: Tier, scalar: bool, run: u64, seed: u64, tape
         cmd.env("WIREFILTER_USE_AVX2", "0");
     } else {
         cmd.env_remove("WIREFILTER_USE_AVX2");
+    }
+    match tape_log {
+        Some(p) => {
+            cmd.env("WFSIM_TAPE_LOG", p);
+        }
+        None => {
+            cmd.env_remove("WFSIM_TAPE_LOG");
+        }
     }
     let out = cmd.stderr(Stdio::null()).output().expect("spawn eval");
     let _ = std::fs::remove_file(&path);
@@ -350,7 +377,8 @@ fn rng_counter() -> u64 {
 // ------------------------------------------------------------------ minimiser
 
 fn minimise(prop: &PropDef, tier: Tier, scalar: bool, run: u64, seed: u64, sig: &str, tape: Vec<u32>) -> (Vec<u32>, usize) {
-    let budget_replays = 1500usize;
+    // VERIF_MIN_REPLAYS=0 skips minimisation (used by the sensitivity regression, which only needs the verdict)
+    let budget_replays: usize = std::env::var("VERIF_MIN_REPLAYS").ok().and_then(|s| s.parse().ok()).unwrap_or(1500);
     let start = Instant::now();
     let mut used = 0usize;
     let mut best = tape;
@@ -702,12 +730,18 @@ pub fn driver_main(prop: &PropDef, tier: Tier) -> i32 {
             ));
             continue;
         }
-        let (min_tape, used) = match (&f.tape, first.died.is_some()) {
-            (Some(t), false) => {
+        // a run that kills its process takes its tape with it: re-generate it with the unbuffered tape log
+        let recovered = if f.tape.is_none() && first.died.is_some() { recover_tape_of_dead_run(prop, tier, f.scalar, f.run, seed) } else { None };
+        let start_tape = f.tape.clone().or(recovered).filter(|t| {
+            // the recovered prefix must reproduce the death when replayed
+            f.tape.is_some() || eval_tape(prop, tier, f.scalar, f.run, seed, Some(t), false).signature.as_deref() == Some(sig.as_str())
+        });
+        let (min_tape, used) = match &start_tape {
+            Some(t) => {
                 let (m, u) = minimise(prop, tier, f.scalar, f.run, seed, sig, t.clone());
                 (Some(m), u)
             }
-            _ => (f.tape.clone(), 0),
+            None => (None, 0),
         };
         let a = eval_tape(prop, tier, f.scalar, f.run, seed, min_tape.as_deref(), true);
         let b = eval_tape(prop, tier, f.scalar, f.run, seed, min_tape.as_deref(), true);
@@ -730,8 +764,10 @@ pub fn driver_main(prop: &PropDef, tier: Tier) -> i32 {
         });
         // pretty document, compact tape (one [label, n, value] triple per entry, all on one line)
         let mut text = serde_json::to_string_pretty(&doc).unwrap();
-        if !a.tape.is_null() {
-            let tape = serde_json::to_string(&a.tape).unwrap();
+        // a run that dies cannot report its labelled tape: fall back to the bare values
+        let tape_value = if a.tape.is_null() { min_tape.as_ref().map(|t| json!(t)).unwrap_or(Value::Null) } else { a.tape.clone() };
+        if !tape_value.is_null() {
+            let tape = serde_json::to_string(&tape_value).unwrap();
             if let Some(pos) = text.rfind('}') {
                 text.truncate(pos);
                 let trimmed = text.trim_end().to_string();
